@@ -261,6 +261,10 @@ func runCheck(o checkOpts) *checkResult {
 	}
 	w := NewWorld(o.repo)
 	for _, sf := range specs {
+		if strings.HasPrefix(sf.Name, "extern:") {
+			w.externFrames[strings.TrimPrefix(sf.Name, "extern:")] = sf.Reason
+			continue
+		}
 		w.specFns[sf.Name] = sf
 	}
 	// load only the packages of this property's contracts (plus those of contracts they may call)
